@@ -224,7 +224,7 @@ skip_set_msb0(const unsigned char *bitmap, size_t size, kdump_pfn_t pfn)
 	if (bp >= endp)
 		return pfn;
 
-	val = ~(*bp << (pfn & 7));
+	val = ~((*bp << (pfn & 7)) | ((1U << (pfn & 7)) - 1));
 	if (val)
 		return pfn + clz((uint32_t)val << 24);
 
